@@ -99,6 +99,28 @@ def matcher_rules(F, R):
         if not ok:
             R.violation("REC", MF + "/" + fmt(FX.strip_sites(o), 60), "recursive matcher call on something that is not a strict sub-expression of self (%s): "
                         "matching may not terminate" % fmt(o, 80), c.span.loc)
+    # ---- OR-union: alternation denotes the union of both languages: both arms are matched on every path through the Or arm
+    # (neither recursive call is skipped depending on the other's result)
+    arms = {}
+    for (c, ai) in rec:
+        f = fmt(FX.strip_sites(mb.origin(c.args[ai])), 80)
+        m = re.search(r"as Or\)\.(\d)", f)
+        if m:
+            arms.setdefault(m.group(1), []).append(c)
+    R.floor("OR-union", len(arms), 2, "Or arms matched recursively in match_from")
+    if len(arms) == 2 and all(len(v) == 1 for v in arms.values()):
+        ca, cb = arms["0"][0], arms["1"][0]
+        pd = mb.pdom
+        def _pdoms(x, y):          # does block x post-dominate block y (w.r.t. normal returns)
+            return x in pd.get(y, ())
+        oku = (_pdoms(cb.bb, ca.bb) and mb.dominates(ca.bb, cb.bb)) or (_pdoms(ca.bb, cb.bb) and mb.dominates(cb.bb, ca.bb))
+        R.ob("OR-union", "match_from: both alternation arms are matched on every path through the Or arm", oku, True,
+             {"rule": "OR-union", "blocks": [ca.bb, cb.bb], "holds": oku})
+        if not oku:
+            R.violation("OR-union", MF + "/or-arm-skipped", "one alternation arm is matched only on some paths (depending on the other arm's result): "
+                        "`a | b` no longer denotes the union of both languages", cb.span.loc)
+    elif arms:
+        R.ob("OR-union", "undecided: Or arms matched at %s sites" % {k: len(v) for k, v in arms.items()}, True, True)
     inner_calls = ab.calls_to(MF)
     R.floor("REC-inner", len(inner_calls), 2, "match_from calls in all_nested_matches")
     for c in inner_calls:
